@@ -4709,3 +4709,192 @@ func inSameLoopBackPath(a, b *ssa.BasicBlock) bool {
 	// b must not dominate a (b comes after a in the iteration)
 	return b.Dominates(a)
 }
+
+// ruleFormattedBytesPrivate (C08.bytes): "present exactly once, byte for byte". The
+// sinks write the bytes an earlier node stored under the format key, possibly much
+// later and on another goroutine. Those bytes therefore belong to the event: every
+// FormattedAs in the library stores the Bytes() of a buffer allocated by that very
+// call (directly, or through a package-local helper that returns the bytes of its own
+// fresh buffer) — never memory that outlives the call and is reused for the next
+// event (a sync.Pool buffer, a field of the node, a global), which the next event's
+// formatting would overwrite before or while this event is written.
+func (c *Ctx) ruleFormattedBytesPrivate(rule string) {
+	p, r := c.P, c.R
+	n := 0
+	var freshBytes func(t *Term, depth int) bool
+	freshBytes = func(t *Term, depth int) bool {
+		if t.Is("Call", "(*bytes.Buffer).Bytes") && len(t.Args) == 1 && t.Args[0].Op == "Alloc" {
+			return true
+		}
+		if t.Op == "Extract" && len(t.Args) == 1 {
+			t = t.Args[0]
+		}
+		if t.Op == "Call" && depth < 2 {
+			if call, ok := t.V.(*ssa.Call); ok {
+				if callee := call.Call.StaticCallee(); callee != nil && p.InRepo(callee) && len(callee.Blocks) > 0 {
+					tb := p.NewTerms(nil)
+					okAll, k := true, 0
+					for _, ret := range Returns(callee) {
+						rv := RetVals(ret)
+						if len(rv) == 0 {
+							continue
+						}
+						if isNilConst(rv[0]) {
+							continue // error return
+						}
+						k++
+						if !freshBytes(tb.Of(rv[0]), depth+1) {
+							okAll = false
+						}
+					}
+					return okAll && k > 0
+				}
+			}
+		}
+		return false
+	}
+	for _, f := range p.RepoFuncs() {
+		if p.InCtl(f) {
+			continue
+		}
+		tb := p.NewTerms(nil)
+		for _, ci := range callsTo(f, func(nm string, cc *ssa.CallCommon) bool { return nm == "(*eventlogger.Event).FormattedAs" }) {
+			n++
+			t := tb.Of(ci.Common().Args[2])
+			r.Check(freshBytes(t, 0), rule, p.ShortFn(f)+"->FormattedAs:private-bytes", p.InstrPos(ci), "the stored bytes are those of a buffer allocated by this call", "the bytes stored under the format ("+shortStr(t.String(), 100)+") are not the contents of a buffer allocated by this call: memory that is reused for later events (a pooled buffer, a field) is overwritten by the next event's formatting before or while a sink writes this one — acknowledged events come out duplicated, torn or not at all")
+		}
+	}
+	if n < 3 {
+		r.Und(rule, "FormattedAs:instance-floor", "", fmt.Sprintf("only %d FormattedAs calls found in the library (JSONFormatter, JSONFormatterFilter, cloudevents x2 expected)", n))
+	}
+}
+
+// ruleGateSectionLeak (C11.section leak): a group (*gatedEvent) or a list position
+// (*list.Element) is only meaningful inside the critical section of Filter.l in which
+// it was looked up: once the lock is released another caller may compose, send and
+// remove the group. A function that takes the lock itself therefore never RETURNS such
+// pointers (or containers of them) — "collect the expired groups under the read lock,
+// open them under the write lock" hands the second section groups that may already
+// have been emitted: they are composed and sent a second time, and the stale removal
+// deletes whatever group was opened under the id meanwhile.
+func (c *Ctx) ruleGateSectionLeak(rule string) {
+	p, r := c.P, c.R
+	var holds func(t types.Type, seen map[types.Type]bool) bool
+	holds = func(t types.Type, seen map[types.Type]bool) bool {
+		if seen[t] {
+			return false
+		}
+		seen[t] = true
+		switch x := t.(type) {
+		case *types.Named:
+			if x.Obj().Pkg() != nil {
+				if x.Obj().Pkg().Path() == PkgGated && x.Obj().Name() == "gatedEvent" {
+					return true
+				}
+				if x.Obj().Pkg().Path() == "container/list" && (x.Obj().Name() == "Element" || x.Obj().Name() == "List") {
+					return true
+				}
+			}
+			return false
+		case *types.Pointer:
+			return holds(x.Elem(), seen)
+		case *types.Slice:
+			return holds(x.Elem(), seen)
+		case *types.Array:
+			return holds(x.Elem(), seen)
+		case *types.Map:
+			return holds(x.Key(), seen) || holds(x.Elem(), seen)
+		case *types.Chan:
+			return holds(x.Elem(), seen)
+		}
+		return false
+	}
+	n, ok := 0, true
+	for _, f := range p.FuncsIn(PkgGated) {
+		if f.Parent() != nil {
+			continue
+		}
+		acquires := false
+		eachInstr(f, func(in ssa.Instruction) {
+			if ci, isCall := in.(ssa.CallInstruction); isCall {
+				if op := lockOpOf(ci.Common()); op != nil && op.Acquire && op.Class == "gated.Filter.l" {
+					acquires = true
+				}
+			}
+		})
+		if !acquires {
+			continue
+		}
+		n++
+		res := f.Signature.Results()
+		for i := 0; i < res.Len(); i++ {
+			if holds(res.At(i).Type(), map[types.Type]bool{}) {
+				ok = false
+				r.Bad(rule, p.ShortFn(f)+":returns-gate-internals", p.Pos(f.Pos()), p.ShortFn(f)+" takes Filter.l itself and returns "+types.TypeString(res.At(i).Type(), shortQual)+": groups / list positions looked up in its critical section are used by the caller after the lock was released, when another caller may already have composed, sent and removed them — the group is emitted twice and the stale removal hits a newer group of the same id")
+			}
+		}
+	}
+	if ok {
+		r.Check(n >= 3, rule, "gate-internals-stay-in-section", "", fmt.Sprintf("%d functions take Filter.l; none returns groups or list positions", n), "fewer than 3 functions of package gated take Filter.l")
+	}
+}
+
+// ruleCopyLengths (C16.mac copy-length): a private copy of key material is made with
+// the length of what is copied: for every copy(dst, src) in package encrypt whose
+// destination was made with make([]byte, len(X)), X is src. A buffer sized after a
+// different slice (the salt's length for the info) truncates or zero-pads the copy,
+// and the derived key is not the one for the info in force.
+func (c *Ctx) ruleCopyLengths(rule string) {
+	p, r := c.P, c.R
+	n := 0
+	for _, f := range p.FuncsIn(PkgEncrypt) {
+		tb := p.NewTerms(nil)
+		eachInstr(f, func(in ssa.Instruction) {
+			call, isCall := in.(*ssa.Call)
+			if !isCall {
+				return
+			}
+			b, isB := call.Call.Value.(*ssa.Builtin)
+			if !isB || b.Name() != "copy" || len(call.Call.Args) != 2 {
+				return
+			}
+			// destination: a MakeSlice (possibly through a field store/load of the same function)
+			var mk *ssa.MakeSlice
+			var find func(v ssa.Value, depth int)
+			find = func(v ssa.Value, depth int) {
+				if depth > 3 || mk != nil {
+					return
+				}
+				switch x := v.(type) {
+				case *ssa.MakeSlice:
+					mk = x
+				case *ssa.UnOp:
+					// load of a field that was just stored with a MakeSlice in this function
+					if fa, isFA := x.X.(*ssa.FieldAddr); isFA {
+						eachInstr(f, func(i2 ssa.Instruction) {
+							if st, isSt := i2.(*ssa.Store); isSt {
+								if fa2, isF2 := st.Addr.(*ssa.FieldAddr); isF2 && fa2.X == fa.X && fa2.Field == fa.Field && dominatesInstr(i2, in) {
+									find(st.Val, depth+1)
+								}
+							}
+						})
+					}
+				}
+			}
+			find(call.Call.Args[0], 0)
+			if mk == nil {
+				return
+			}
+			la := lenArg(mk.Len)
+			if la == nil {
+				return
+			}
+			n++
+			lt, st := tb.Of(la).String(), tb.Of(call.Call.Args[1]).String()
+			r.Check(lt == st, rule, p.ShortFn(f)+":copy-length:"+shortStr(st, 60), p.InstrPos(in), "the copy's destination is sized after its source", "copy(dst, "+shortStr(st, 80)+") into a buffer made with len("+shortStr(lt, 80)+"): the copy is truncated or zero-padded whenever the two lengths differ, so the key is not derived from the value in force")
+		})
+	}
+	if n < 4 {
+		r.Und(rule, "copy-length:instance-floor", "", fmt.Sprintf("only %d sized copies found in package encrypt (salt and info in hmacSha256 and in the rotation arm of Process expected)", n))
+	}
+}
